@@ -34,6 +34,11 @@ fn real_main() -> i32 {
         }
         "resolve" => run_engine(&mut caoverif::e_resolve::ResolveEngine {}, &opts),
         "total" => run_engine(&mut caoverif::e_total::TotalEngine {}, &opts),
+        "gc" => {
+            let san = opts.x("sanitizer").is_some();
+            let mut e = caoverif::e_gc::GcEngine::new(san, opts.x_u64("max-singles", 400) as usize);
+            run_engine(&mut e, &opts)
+        }
         other => {
             eprintln!("unknown engine {other}");
             64
